@@ -7,7 +7,7 @@ from ..core import b, u
 
 PROP = "C20"
 LEVEL = "exploration"
-RULE = ("trees of N small files (0-3 blocks each, so the block pool's queue fills) for N in a geometric ladder, copied under "
+RULE = ("trees of N small files (one block each in the main ladder, so that every queued block job pins a file pair of its own; 0-3 blocks, empty, sparse, links in the variants) for N in a geometric ladder, copied under "
         "RLIMIT_NOFILE=1024 by both drivers at fixed worker counts, with the supervisor keeping the dispatcher and walker ahead of the "
         "workers (role priorities: workers lowest, so back-pressure is what stops the dispatcher) and, as controls, free and pct "
         "schedules. The supervisor's shadow descriptor table (cross-checked against /proc/<pid>/fd) yields the peak number of "
@@ -22,7 +22,7 @@ PROCS = 8
 def gen_cases(tier, seed):
     r = random.Random(seed * 160481183 + 20)
     ladder = [1000, 4000] if tier == "quick" else [1000, 4000, 16000]
-    workers = [2, 16] if tier == "quick" else [1, 4, 16, 64]
+    workers = [2, 16, 64] if tier == "quick" else [1, 4, 16, 32, 64]
     scheds = [("slow-workers", {"sched": "role", "role_order": "dispatcher,walker,copy,main,worker"})]
     if tier == "thorough":
         scheds += [("free", {"sched": "free"}), ("pct", {"sched": "pct", "sched_d": 3})]
@@ -30,11 +30,26 @@ def gen_cases(tier, seed):
     for driver in ("parblock", "parfile"):
         for w in workers:
             for sname, sch in scheds:
+                if tier == "quick" and w == 64 and driver == "parfile":
+                    continue
                 for n in ladder:
                     p = dict(sch)
                     p["sched_seed"] = r.randrange(1 << 30)
-                    yield {"group": gid, "driver": driver, "workers": w, "n": n, "sname": sname, "plan": p, "fs": "ext4", "seed": r.randrange(1 << 30)}
+                    # one block per file: every queued block job then pins a file pair of its own (the worst case for descriptors)
+                    yield {"group": gid, "driver": driver, "workers": w, "n": n, "sname": sname, "plan": p, "fs": "ext4", "seed": r.randrange(1 << 30),
+                           "content": "oneblock"}
                 gid += 1
+    # the bound must not depend on what the files look like or on other options either
+    variants = [("empty-files", [], "empty"), ("options", ["--fsync", "--backup", "numbered", "--gitignore"], "mixed"), ("deref+links", ["-L"], "links"),
+                ("sparse-files", ["--no-perms"], "sparse")]
+    for vi, (vname, extra, content) in enumerate(variants):
+        for driver in ("parblock", "parfile"):
+            if tier == "quick" and (vi + (driver == "parfile")) % 2:
+                continue
+            for n in ladder[:2] if tier == "quick" else ladder:
+                yield {"group": gid, "driver": driver, "workers": 4, "n": n, "sname": "slow-workers:" + vname, "plan": dict(scheds[0][1], sched_seed=r.randrange(1 << 30)),
+                       "fs": "ext4", "seed": r.randrange(1 << 30), "extra": extra, "content": content}
+            gid += 1
     # tiny trees: the bound must of course hold there too
     for driver in ("parblock", "parfile"):
         yield {"group": -1, "driver": driver, "workers": 4, "n": 1, "sname": "free", "plan": {"sched": "free"}, "fs": "ext4", "seed": 1}
@@ -53,14 +68,32 @@ def run_case(case):
         ndirs = max(1, n // 250)
         for d in range(ndirs):
             os.mkdir(os.path.join(src, b"d%03d" % d))
+        content = case.get("content", "mixed")
+        nfiles = n
         for i in range(n):
-            size = r.choice([0, 1, bs, bs + 1, 2 * bs + 5, 3 * bs])
-            with open(os.path.join(src, b"d%03d" % (i % ndirs), b"f%05d" % i), "wb") as f:
-                f.write(blk[:size])
+            size = 0 if content == "empty" else r.choice([1, 100, bs - 1, bs]) if content == "oneblock" else r.choice([0, 1, bs, bs + 1, 2 * bs + 5, 3 * bs])
+            fp = os.path.join(src, b"d%03d" % (i % ndirs), b"f%05d" % i)
+            if content == "links" and i % 3 == 2:
+                os.symlink(b"../d%03d/f%05d" % ((i - 1) % ndirs, i - 1), fp)       # with -L a link becomes another regular file
+                continue
+            with open(fp, "wb") as f:
+                if content == "sparse" and i % 2:
+                    f.truncate(1 << 20)
+                    f.seek(1 << 19)
+                    f.write(blk[:bs])
+                else:
+                    f.write(blk[:size])
+        if content == "options":
+            pass
+        if "--backup" in case.get("extra", []):
+            # an older copy is already there, so every file is backed up first
+            import shutil
+            os.makedirs(os.path.join(b(root), b"dst"))
+            shutil.copytree(src, os.path.join(b(root), b"dst", b"src"))
         plan = dict(case["plan"])
         plan.update({"log_mode": "none", "nofile": 1024, "max_steps": 200 * n + 200000, "wall_ms": 600000, "cpu_ms": 300000, "pct_horizon": 2000,
                      "sched_cap_us": 2000})
-        args = ["--driver", case["driver"], "-w", str(case["workers"]), "--block-size", str(bs), "-r", "src", "dst"]
+        args = ["--driver", case["driver"], "-w", str(case["workers"]), "--block-size", str(bs)] + case.get("extra", []) + ["-r", "src", "dst"]
         run = core.run_xcp(sb, args, plan)
         if run.verdict != "exited":
             res["inconc"].append("run-" + run.verdict)
@@ -75,7 +108,7 @@ def run_case(case):
         if s.get("emfile"):
             res["viol"].append({"sig": "%s:emfile" % case["driver"], "what": "%d system call(s) failed with EMFILE/ENFILE; %s" % (s["emfile"], tag)})
         if run.exit0:
-            cnt = sum(len(fs) for _, _, fs in os.walk(os.path.join(b(root), b"dst")))
+            cnt = sum(len([f for f in fs if not f.endswith(b"~")]) for _, _, fs in os.walk(os.path.join(b(root), b"dst")))
             if cnt != n:
                 res["viol"].append({"sig": "%s:files-missing" % case["driver"], "what": "exit 0 but %d of %d files in the destination; %s" % (cnt, n, tag)})
         res["data"] = {"group": case["group"], "n": n, "peak": s["fd_peak"], "driver": case["driver"], "workers": case["workers"], "sname": case["sname"],
